@@ -117,3 +117,29 @@ Theorem driver_receives_once : forall fuel scripts plan r a b,
   (exists v, a = TOk v /\ b = TAlready /\ log_complete r log = [v] /\ log_deliv r log = []) \/
   (a = TAlready /\ b = TAlready).
 Proof. exact final_obs_once_l. Qed.
+
+(* ---- the specification's scheduling rule and the queue ----------------------- *)
+
+(* "oldest wake-up first, each task at most once" (time stamps, as the oracle
+   checks it) and the FIFO queue with duplicate suppression take the same task
+   at every step, for every sequence of wake and take operations *)
+Theorem oldest_first_is_fifo_queue : forall ops, s_run (0, []) ops = q_run [] ops.
+Proof. exact oldest_first_is_queue_l. Qed.
+
+(* ---- assumptions (each must be: Closed under the global context) ---- *)
+Print Assumptions queue_nodup.
+Print Assumptions woken_iff_queued.
+Print Assumptions completed_future_never_polled.
+Print Assumptions no_reentrant_poll.
+Print Assumptions fifo_bounded_wait.
+Print Assumptions no_starvation.
+Print Assumptions stall_no_pending_wake.
+Print Assumptions relay_delivers_exactly_once.
+Print Assumptions relay_nothing_without_send.
+Print Assumptions script_exec_refines.
+Print Assumptions script_no_panic.
+Print Assumptions stall_means_all_waiting.
+Print Assumptions polled_relay_unfinished.
+Print Assumptions result_delivered_at_most_once.
+Print Assumptions driver_receives_once.
+Print Assumptions oldest_first_is_fifo_queue.
